@@ -331,6 +331,18 @@ class Interp(object):
                         o.attrs['ptrdata'] = flat_ptrs(init)
                     except Exception:
                         pass
+                ms_ = re.match(r'^\[(\d+) x %"?(struct\.[^"\]]+)"?\]$', ty_)
+                if ms_ and isinstance(init, list) and len(init) == int(ms_.group(1)) and all(isinstance(x, list) for x in init):
+                    # a constant table of records with integer fields: one constant cell per field
+                    sd = self.m.structs.get(ms_.group(2))
+                    if sd and not sd.get('opaque') and all(re.match(r'^i\d+$', fl_[0]) for fl_ in sd['fields']) and \
+                            all(len(x) == len(sd['fields']) and all(isinstance(y, int) for y in x) for x in init):
+                        cm = {}
+                        for k_, rec_ in enumerate(init):
+                            for fl_, v_ in zip(sd['fields'], rec_):
+                                cm[k_ * sd['size'] + fl_[1]] = (int(fl_[0][1:]) // 8, v_)
+                        o.attrs['cellmap'] = cm
+                        o.size = Lin.const(len(init) * sd['size'])
                 if isinstance(init, list) and init and all(isinstance(x, int) for x in init):
                     o.attrs['data'] = init
                     m = re.match(r'\[(\d+) x i(\d+)\]', g.get('ty', ''))
@@ -744,6 +756,9 @@ class Interp(object):
                     return NULL
                 if tgt is not None:
                     return PtrV(self.global_obj(st, tgt), Lin.const(toff), True)
+            cm0 = o.attrs.get('cellmap')
+            if cm0 is not None and o.attrs.get('const') and off.c in cm0 and cm0[off.c][0] == nbytes and int_bits(ty) == 8 * nbytes:
+                return IntV(8 * nbytes, Lin.const(cm0[off.c][1] % (1 << (8 * nbytes))), 'u')
             data0 = o.attrs.get('data')
             eb0 = o.attrs.get('eltbytes', 1)
             if data0 is not None and o.attrs.get('const') and nbytes == eb0 and int_bits(ty) == 8 * eb0 and off.c % eb0 == 0 and 0 <= off.c // eb0 < len(data0):
